@@ -23,7 +23,7 @@ INF = np.inf
 # families the oracle models (others are not used in C12 instances)
 KKT_FAMILIES = ('l1', 'scaled_l1', 'l1_trans', 'l2', 'l2_trans', 'l2sq',
                 'l2sq_trans', 'zero', 'const', 'box', 'nonneg', 'huber',
-                'linfball', 'quadpert', 'quadpert_smooth', 'l2ball')
+                'linfball', 'quadpert', 'quadpert_smooth', 'l2ball', 'kl')
 KKT_SMOOTH = ('l2sq', 'l2sq_trans', 'huber', 'quadpert_smooth')
 KKT_PRODUCT = ('sepsum', 'groupl1', 'l2sq_p')
 
@@ -76,6 +76,8 @@ class Model(object):
             self.hi = abs(g.standard_normal()) + 0.1
         elif fam in ('quadpert', 'quadpert_smooth'):
             self.c = elem_flat(P.rand_elem(space, g))
+        elif fam == 'kl':
+            self.prior = elem_flat(P.rand_elem(space, g, positive=True))
         elif fam == 'sepsum':
             self.parts = [Model(c, s) for c, s in zip(cfg['parts'], space)]
         elif fam == 'groupl1':
@@ -93,6 +95,8 @@ class Model(object):
             return np.maximum(x, 0.0)
         if fam == 'linfball':
             return np.clip(x, -1.0, 1.0)
+        if fam == 'kl':
+            return np.maximum(x, 1e-9)
         if fam == 'l2ball':
             nrm = np.sqrt(np.sum(self.w * x * x))
             return x if nrm <= 1 else x / nrm
@@ -103,6 +107,34 @@ class Model(object):
                 pos += m.n
             return np.concatenate(out)
         return x
+
+    def interior(self, x):
+        """A point near x that is safely inside dom f (constructed solutions
+        must not sit on the boundary of an open domain, where the gradient
+        blows up and rounding dominates)."""
+        fam = self.cfg['fam']
+        if fam == 'kl':
+            return np.abs(x) + 0.1
+        if fam == 'sepsum':
+            out, pos = [], 0
+            for m in self.parts:
+                out.append(m.interior(x[pos:pos + m.n]))
+                pos += m.n
+            return np.concatenate(out)
+        return self.proj_dom(x)
+
+    def safe(self, y):
+        """Is y safely inside dom f (see `interior`)?"""
+        fam = self.cfg['fam']
+        if fam == 'kl':
+            return bool(np.all(y >= 0.05))
+        if fam == 'sepsum':
+            pos, ok = 0, True
+            for m in self.parts:
+                ok = ok and m.safe(y[pos:pos + m.n])
+                pos += m.n
+            return ok
+        return True
 
     def kinks(self, x):
         """Nearest non-differentiability location per coordinate (NaN where
@@ -191,6 +223,9 @@ class Model(object):
         elif fam == 'huber':
             gam = self.cfg.get('gamma', 0.5)
             S.lo[sl] = S.hi[sl] = lam * np.clip(x / gam, -1.0, 1.0)
+        elif fam == 'kl':
+            # lam * sum w (x - g + g log(g/x)), x > 0: gradient lam (1 - g/x)
+            S.lo[sl] = S.hi[sl] = lam * (1.0 - self.prior / np.maximum(x, 1e-300))
         elif fam == 'groupl1':
             d, m = self.d, self.m
             X = x.reshape(d, m)
